@@ -342,6 +342,7 @@ def r12_4(ctx, info) -> None:
     g = desc.methods.get("__get__")
     if g is None:
         return
+    g = ctx.inlined(g)  # (building the placeholder / reaching the instance dict may sit in private helpers)
     cfg = cfg_of(g)
     names = g.param_names()
     inst = names[1] if len(names) > 1 else "instance"
